@@ -289,6 +289,14 @@ func worker(args []string) {
 				os.MkdirAll(rdir, 0755)
 				dst := filepath.Join(rdir, "restored.db")
 				_, rerr := snapshot.Restore(sr, dst)
+				// A Read that was in flight when the idle timer force-closed the stream
+				// fails with the file's own "already closed" error rather than the
+				// timeout error; the stream itself tells whether it timed out.
+				forced := false
+				if rerr != nil {
+					_, perr := rc.Read(make([]byte, 1))
+					forced = errors.Is(perr, snapshot.ErrSnapshotReaderTimeout)
+				}
 				// close once / twice / concurrently
 				switch rr.IntN(3) {
 				case 0:
@@ -307,7 +315,7 @@ func worker(args []string) {
 				if rerr != nil {
 					if errors.Is(rerr, errGaveUp) {
 						abandoned.Add(1)
-					} else if errors.Is(rerr, snapshot.ErrSnapshotReaderTimeout) || strings.Contains(rerr.Error(), "idle timeout") || sr.done {
+					} else if errors.Is(rerr, snapshot.ErrSnapshotReaderTimeout) || strings.Contains(rerr.Error(), "idle timeout") || sr.done || forced {
 						timedOut.Add(1)
 					} else {
 						problem("stream-corrupt", "stream of snapshot %s (index %d) did not restore although it never stalled: %v", m.ID, meta.Index, rerr)
@@ -429,7 +437,7 @@ func worker(args []string) {
 
 func run(c *vf.Ctx) {
 	c.Rule("run = one real snapshot.Store (reap threshold 2, read idle timeout 30-80 ms) driven for 5 s (quick) / 12 s (thorough) by a creator alternating full and incremental sinks fed with real SQLite data, 3-6 readers (open newest or a random listed snapshot, read through snapshot.Restore with random pauses, a quarter stalling beyond the idle timeout, a quarter abandoning the stream just about when its idle timer fires, close once / twice / concurrently), an explicit Reap caller and the auto-reaper, with seeded sleeps at the hook points around lock acquire/release and inside the idle-timer callback; half of the runs in a -race build. Monitors: content of every stream read to EOF (restores to the database recorded for that snapshot index), ordered hook event log (no reap plan executes while a stream is open, acquisitions = releases, never more releases than acquisitions), reader-count panic, final Reap obtains the lock, race reports in snapshot/ and internal/rsync. non-trivial = run with >= 1 reap execution, >= 1 timed-out stream and >= 1 completed stream; distinct by case")
-	c.Assume("a stream that stalled beyond the idle timeout may fail; nothing is asserted about its bytes")
+	c.Assume("a stream that stalled beyond the idle timeout, or that the store itself reports as timed out (a reader descheduled for longer than the 30-80 ms timeout on a loaded machine), may fail; nothing is asserted about its bytes")
 	n := c.N(6, 60)
 	tmp := vf.TempDir("c11")
 	defer os.RemoveAll(tmp)
